@@ -313,6 +313,11 @@ func (bucket *Bucket) dropCollection(name sgbucket.DataStoreNameImpl) error {
 		c.close()
 		delete(bucket.collections, name)
 	}
+	// The feeds are shared by all handles; stop them even if this handle never opened the collection.
+	for _, feed := range bucket.collectionFeeds[name] {
+		feed.close()
+	}
+	delete(bucket.collectionFeeds, name)
 
 	_, err := bucket._db().Exec(`DELETE FROM collections WHERE scope=? AND name=?`, name.ScopeName(), name.CollectionName())
 	if err != nil {
